@@ -146,6 +146,15 @@ def catalogue(M, cls, rng):
                 out.append(("two-centres", ["set_atom_stereo_change", {"fleeting": t(None), "formed": t(p), "broken": t(p)}]))
             if bond:
                 out.append(("two-centres", ["set_bond_stereo_change", {"broken": ["PlanarBond", [None, Y, bond[0], bond[1], Y, None], 0], "formed": ["PlanarBond", [Y, Y + 1, None, bond[1], Y + 2, None], 0]}]))
+                # two UNSPECIFIED descriptors over the same six atoms centred on different bonds (such descriptors
+                # compare equal and hash alike, a set of them has one element)
+                l1, l2, l3, l4 = Y, Y + 1, Y + 2, Y + 3
+                for klass in ("PlanarBond", "AtropBond"):
+                    out.append(("two-centres", ["set_bond_stereo_change", {"broken": [klass, [l1, l2, bond[0], bond[1], l3, l4], None], "formed": [klass, [bond[0], l2, l1, l3, bond[1], l4], None]}]))
+                out.append(("two-centres", ["set_bond_stereo_change", {"fleeting": ["PlanarBond", [l1, l2, bond[0], bond[1], l3, l4], None], "broken": ["AtropBond", [bond[0], bond[1], l2, l4, l1, l3], None]}]))
+            if p is not None:
+                # likewise for atom centres: same five atoms, unspecified, centred on p and on one of its ligands
+                out.append(("two-centres", ["set_atom_stereo_change", {"broken": ["Tetrahedral", [p, Y, Y + 1, Y + 2, Y + 3], None], "formed": ["Tetrahedral", [Y, p, Y + 1, Y + 2, Y + 3], None]}]))
             if q is not None:
                 out.append(("two-centres", ["set_atom_stereo_change", {"broken": t(p), "formed": t(q, -1)}]))
                 out.append(("two-centres", ["set_atom_stereo_change", {"fleeting": t(q), "formed": t(p)}]))
